@@ -427,7 +427,7 @@ fn run_history<W: Wb>(fmt: &str, open: &dyn Fn() -> Option<W>, book: &MBook, has
         }
     }
     // ---- the auto-detected reader returns the same results
-    match guard(|| open_workbook_auto_from_rs(Cursor::new(bytes.to_vec()))) {
+    match guard(|| open_workbook_auto_from_rs(cur_at(bytes))) {
         Ok(Ok(mut auto)) => {
             let Some(mut own) = open() else { return };
             let mut ops = vec![Op::SheetNames, Op::Metadata, Op::DefinedNames, Op::Worksheets, Op::Vba, Op::Range("no such sheet".into())];
@@ -560,7 +560,7 @@ impl Prop for C07 {
         tier.pick(16, 160)
     }
     fn mandatory(&self, _t: Tier) -> Vec<String> {
-        let mut v: Vec<String> = ["fmt:xlsx", "fmt:xlsb", "fmt:xls", "fmt:ods", "header_row_changed", "auto_detected", "non_worksheet_present", "with_vba", "scripted:table_across_header_change", "xlsx:unreadable_sheet", "unknown_name:other_case"].iter().map(|s| s.to_string()).collect();
+        let mut v: Vec<String> = ["fmt:xlsx", "fmt:xlsb", "fmt:xls", "fmt:ods", "header_row_changed", "auto_detected", "non_worksheet_present", "with_vba", "scripted:table_across_header_change", "xlsx:unreadable_sheet", "unknown_name:other_case", "zip_package_after_a_prefix"].iter().map(|s| s.to_string()).collect();
         for o in ["Range", "RangeRef", "RangeAt", "Worksheets", "Formula", "MergeCells", "MergeCellsAt", "MergedBySheet", "Table", "TableRef", "Vba", "SheetNames", "Metadata", "DefinedNames"] {
             v.push(format!("op:{}", o));
         }
@@ -599,6 +599,14 @@ impl Prop for C07 {
                             bytes = b;
                             out.feat("xlsx:unreadable_sheet");
                         }
+                    }
+                    if rng.chance(1, 6) {
+                        // a zip package may be preceded by other bytes (readers locate it from its end)
+                        let mut b: Vec<u8> = (0..1 + rng.usize(300)).map(|_| rng.next_u32() as u8).collect();
+                        b[0] = b'#';
+                        b.extend_from_slice(&bytes);
+                        bytes = b;
+                        out.feat("zip_package_after_a_prefix");
                     }
                     run_history::<Xlsx<Cur>>(fmt, &|| Xlsx::new(cur_at(&bytes)).ok(), &book, true, &mut rng, out, &ctxj, &bytes);
                 }
